@@ -165,6 +165,7 @@ def check(repo, col, tier):
     # funnel (_at_nodes / _at_edges), `scope()` never changes the caller's own view
     col.rule("R-C20-filter", "selection and re-scoping of the population views return fresh views", 12)
     c11._filter(repo, col, "R-C20-filter")
+    c11.select_expansion(repo, col, "R-C20-filter")
     # ... and the populations are selected with `net.cell(<index>)`: every index form names the cells it says (a slice with its step)
     c11._index(repo, col, "R-C20-views")
 
@@ -720,11 +721,16 @@ def _empty_case_returns_early(fi, ex, stack, matrix_param) -> bool:
             t = ex.term(st.test)
             about_matrix = T.find(t, lambda x: x.op == "param" and x.name == matrix_param) is not None
             txt = t.pretty()
-            empties = (t.op == "cmp" and t.name == "==" and t.args[1].op == "const" and t.args[1].name == 0
-                       and (t.args[0].op == "call" and t.args[0].name == "len" or
-                            (t.args[0].op == "mcall" and t.args[0].name == "sum"))) or \
-                      (t.op == "unary" and t.name == "Not" and (
-                          (t.args[0].op == "call" and t.args[0].name == "len") or
+            def count(x):
+                """the number of entries / of True entries: len(X), X.size, X.shape[0], np.size(X), X.sum(), np.count_nonzero(X)"""
+                return (x.op == "call" and x.name == "len") or (x.op == "attr" and x.name == "size") or \
+                    (x.op == "mcall" and x.name in ("sum", "size", "count_nonzero")) or \
+                    (x.op == "sub" and x.args[0].op == "attr" and x.args[0].name == "shape" and x.args[1].op == "const" and x.args[1].name == 0)
+            empties = (t.op == "cmp" and len(t.args) == 2 and t.args[1].op == "const" and count(t.args[0]) and
+                       ((t.name in ("==", "<=") and t.args[1].name == 0) or (t.name == "<" and t.args[1].name == 1))) or \
+                      (t.op == "cmp" and len(t.args) == 2 and t.args[0].op == "const" and count(t.args[1]) and
+                       ((t.name in ("==", ">=") and t.args[0].name == 0) or (t.name == ">" and t.args[0].name == 1))) or \
+                      (t.op == "unary" and t.name == "Not" and (count(t.args[0]) or
                           (t.args[0].op == "mcall" and t.args[0].name == "any")))
             if about_matrix and empties:
                 return True
